@@ -58,14 +58,20 @@ def gen_case(rng, groups_subset=None, force_enabled=None):
                 m["name"] += "x"
             seen.add(m["name"])
         groups.append([g, ms])
-    return {
+    case = {
         "groups": groups,
         "steps": rng.choice([1, 1, 2, 3, 4]),
         "debug": rng.random() < 0.4,
         "construction": rng.choice(["python", "yaml"]),
-        "mode": "exposure",
+        "mode": rng.choice(["exposure"] * 6 + ["observation-seq", "observation-dask", "calibration"]),
         "nd": rng.random() < 0.3,
     }
+    if case["mode"] != "exposure":
+        case["debug"] = False  # debug capture exists for exposure only
+        case["construction"] = "python"
+    if case["mode"] == "calibration":
+        case["steps"] = 1  # a multi-readout calibration needs a 3-D target cube; one step suffices here
+    return case
 
 
 # ------------------------------------------------------------------ implementation side
@@ -110,24 +116,70 @@ def build(case):
     return pyx.make_exposure(times=times, non_destructive=case["nd"]), pyx.make_detector("CCD", 3, 4), DetectionPipeline(**kw)
 
 
+def _segments(case, log):
+    """split a multi-run log into per-run traces: records carry the thread id and the swept temperature"""
+    by = {}
+    for rec in log:
+        _, step, name, kw, _det, temp, tid = rec
+        ident = json.loads(kw).get("_id", "?#-1")
+        g, _, idx = ident.partition("#")
+        by.setdefault((tid, temp) if case["mode"] != "calibration" else (tid,), []).append([step, g, int(idx), name, kw])
+    return by
+
+
 def run_impl(case):
-    """returns {"trace": [[step, group, idx, name, args]...], "debug_nodes": [...]} or {"error": kind}"""
+    """returns {"trace": [[step, group, idx, name, args]...], "debug_nodes": [...]} or {"error": kind};
+    for multi-run modes additionally "runs": number of complete executions observed"""
     import probes
     import pyx
 
     probes.reset()
+    td = None
     try:
         mode, det, pipe = build(case)
         mode_kind = case["mode"]
         if mode_kind == "exposure":
             res = pyx.run(mode, det, pipe, debug=case["debug"])
+        elif mode_kind in ("observation-seq", "observation-dask"):
+            import dask
+            from pyxel.observation import Observation, ParameterValues
+
+            obs = Observation(parameters=[ParameterValues(key="detector.environment.temperature", values=[101.0, 102.0, 103.0])],
+                              readout=mode.readout, with_dask=(mode_kind == "observation-dask"))
+            if mode_kind == "observation-dask":
+                with dask.config.set(scheduler="threads", num_workers=3):
+                    res = pyx.run(obs, det, pipe, with_inherited_coords=True).load()
+            else:
+                res = pyx.run(obs, det, pipe, with_inherited_coords=True)
+        elif mode_kind == "calibration":
+            import os
+            import tempfile
+
+            import numpy as np
+
+            td = tempfile.mkdtemp(prefix="c01-")
+            tf = os.path.join(td, "t.npy")
+            np.save(tf, np.zeros((3, 4)))
+            cal = pyx.make_calibration([tf], [{"key": "detector.environment.temperature", "values": "_", "boundaries": (100.0, 200.0)},
+                                             {"key": "detector.characteristics.quantum_efficiency", "values": "_", "boundaries": (0.1, 0.9)}],
+                                       result_fit_range=(0, 3, 0, 4), target_fit_range=(0, 3, 0, 4), result_type="pixel",
+                                       population_size=8, generations=1)
+            res = pyx.run(cal, det, pipe)
         else:
             raise ValueError(mode_kind)
     except Exception as e:  # noqa: BLE001
         return {"error": common.err_kind(e), "msg": str(e)[:300]}
+    finally:
+        if td:
+            import shutil
+
+            shutil.rmtree(td, ignore_errors=True)
+    if mode_kind != "exposure":
+        segs = _segments(case, list(probes.LOG))
+        return {"segments": [v for _, v in sorted(segs.items(), key=lambda kv: str(kv[0]))]}
     trace = []
     for rec in probes.LOG:
-        _, step, name, kw, _det = rec
+        _, step, name, kw, _det, _temp, _tid = rec
         ident = json.loads(kw).get("_id", "?#-1")
         g, _, idx = ident.partition("#")
         trace.append([step, g, int(idx), name, kw])
@@ -143,6 +195,19 @@ def run_impl(case):
                     nodes.append([int(tkey[len("time_idx_"):]), g, m])
         out["debug_nodes"] = sorted(nodes)
     return out
+
+
+def whole_copies(seg, expected):
+    """is `seg` a concatenation of k >= 0 complete copies of `expected`?  returns k or None"""
+    if not expected:
+        return 0 if not seg else None
+    n = len(expected)
+    if len(seg) % n:
+        return None
+    for i in range(0, len(seg), n):
+        if seg[i:i + n] != expected:
+            return None
+    return len(seg) // n
 
 
 def lean_request(case):
@@ -168,6 +233,17 @@ def property_predicate(case, impl):
             for i, m in enumerate(cfg.get(g, [])):
                 if m["enabled"]:
                     expected.append([step, g, i, m["name"], canon_kwargs(m["args"])])
+    if "segments" in impl:
+        total = 0
+        for seg in impl["segments"]:
+            k = whole_copies(seg, expected)
+            if k is None:
+                return "a run/evaluation of mode %s did not execute the statement's schedule" % case["mode"]
+            total += k
+        want = {"observation-seq": 3, "observation-dask": 3, "calibration": 1}[case["mode"]]
+        if expected and total < want:
+            return f"mode {case['mode']}: only {total} complete executions observed (expected at least {want})"
+        return None
     if impl["trace"] != expected:
         return "trace differs from the statement's schedule"
     if "debug_nodes" in impl:
@@ -191,7 +267,7 @@ def body(ck: common.Check):
             continue
         c = gen_case(rng, groups_subset=[a, b], force_enabled=True)
         c["groups"] = [x for x in c["groups"]]
-        c["steps"], c["debug"] = 1, False
+        c["steps"], c["debug"], c["mode"], c["construction"] = 1, False, "exposure", rng.choice(["python", "yaml"])
         cases.append(("pairs", c))
     for _ in range(n_random):
         cases.append(("random", gen_case(rng)))
@@ -212,8 +288,14 @@ def body(ck: common.Check):
         why = property_predicate(case, impl)
         if why is not None:
             ck.violation("C01:schedule", why, {"case": case, "impl": impl, "spec": ans["spec"]})
+        ck.count(f"mode={case['mode']}")
         if "trace" in impl and impl["trace"] != ans["model"]:
             ck.disagreement(stream, case, impl["trace"], ans["model"])
+        if "segments" in impl:
+            for seg in impl["segments"]:
+                if whole_copies(seg, ans["model"]) is None:
+                    ck.disagreement(stream, case, seg, ans["model"])
+                    break
         if "trace" in impl and impl["trace"] != ans["spec"] and why is None:
             raise common.InfraError("python predicate and Lean spec disagree — harness bug")
     ck.rule = ("pipelines over random subsets of the 10 groups (user order shuffled, null/empty groups, 1-4 models, "
